@@ -73,8 +73,13 @@ Theorem C10_ilp_hypothesis_monitor_sound : forall I, nodup_ids I -> dep_linkedb 
 Proof. exact dep_linkedb_sound. Qed.
 Print Assumptions C10_ilp_hypothesis_monitor_sound.
 
-(* FINDING ILP-H1: "returns normally" is false of the code as written — schedule() raises AttributeError
-   when a SCHEDULED task has a strategy that does not fit on some worker (ilp_scheduler.py:248-255) *)
-Theorem C10_ilp_returns_normally_refuted : exists I, nodup_ids I /\ rt_nonneg I /\ ilp_raises I = true.
-Proof. exact C10_returns_normally_refuted. Qed.
-Print Assumptions C10_ilp_returns_normally_refuted.
+(* schedule() returns normally on every input whose RUNNING tasks carry a usable cached placement (finding ILP-H1,
+   AttributeError on a SCHEDULED task with a strategy that fits no variable, is fixed in /repo: the guard is read
+   from the source as `warm_start_guarded`); the former witness now has a satisfying assignment *)
+Theorem C10_ilp_returns_normally : forall I,
+  (forall t, In t (i_tasks I) -> is_running t = true -> valid_prev I t = true) -> ilp_raises I = false.
+Proof. exact C10_returns_normally. Qed.
+Print Assumptions C10_ilp_returns_normally.
+Theorem C10_ilp_returns_normally_witness : ilp_raises ex_hint = false /\ exists a, sat (gen_ilp ex_hint) a.
+Proof. exact C10_returns_normally_witness. Qed.
+Print Assumptions C10_ilp_returns_normally_witness.
